@@ -164,9 +164,12 @@ pub fn exec(sc: &Scenario, st: &mut Stats) -> Option<Violation> {
                         let _ = node.save_size();
                         // the human-readable path must return too (Err on non-finite state is fine)
                         let _ = node.save_json().ok().and_then(|t| node.load_json(&t).ok());
-                        // both restore paths must return: from a byte slice and from an io::Read
+                        // every restore path must return: from a byte slice, from an io::Read, in place
                         if let Ok(b) = &bytes {
                             let _ = node.load_reader(b);
+                            // ... and the in-place one, over a live copy of the state
+                            let mut t = node.fork();
+                            let _ = t.load_in_place(b);
                         }
                         bytes.ok().and_then(|b| node.load(&b).ok())
                     });
